@@ -272,6 +272,33 @@ func (env *SpecEnv) ident(name string) SV {
 
 // resolveLocal finds the SSA value that represents source variable `name` at block `at` (used for loop invariants).
 func (e *Enc) resolveLocal(name string, at *ssa.BasicBlock, env *SpecEnv) (SV, bool) {
+	if strings.HasPrefix(name, "res_") {
+		callee := strings.TrimPrefix(name, "res_")
+		var best ssa.Value
+		for _, b := range e.fn.Blocks {
+			for _, ins := range b.Instrs {
+				c, ok := ins.(*ssa.Call)
+				if !ok {
+					continue
+				}
+				cn := c.Call.Method
+				nm := ""
+				if c.Call.IsInvoke() && cn != nil {
+					nm = cn.Name()
+				} else if sc := c.Call.StaticCallee(); sc != nil {
+					nm = sc.Name()
+				}
+				if nm == callee && (b == at || b.Dominates(at)) {
+					if _, has := e.vals[c]; has {
+						best = c
+					}
+				}
+			}
+		}
+		if best != nil {
+			return SV{t: e.val(best), sort: e.g().SortOf(best.Type()), gt: best.Type()}, true
+		}
+	}
 	// 1. phi at the loop head with that comment
 	for _, ins := range at.Instrs {
 		phi, ok := ins.(*ssa.Phi)
@@ -791,6 +818,23 @@ func (env *SpecEnv) call(x *SExpr) SV {
 			return SV{t: fn, sort: rs, gt: rgt}
 		}
 		return SV{t: fmt.Sprintf("(%s %s)", fn, strings.Join(as, " ")), sort: rs, gt: rgt}
+	}
+	if sig, ok := env.e.r.v.specs.Ghosts[x.S]; ok {
+		var as, sorts []string
+		for i := range x.Args {
+			as = append(as, argv(i).t)
+		}
+		for _, t := range sig[:len(sig)-1] {
+			srt, _ := env.quantSort(t)
+			sorts = append(sorts, srt)
+		}
+		rs, rgt := env.quantSort(sig[len(sig)-1])
+		name := "gh_" + x.S
+		g.DeclFun(name, sorts, rs)
+		if len(as) == 0 {
+			return SV{t: name, sort: rs, gt: rgt}
+		}
+		return SV{t: fmt.Sprintf("(%s %s)", name, strings.Join(as, " ")), sort: rs, gt: rgt}
 	}
 	// functional repo function under contract: F(args)
 	for _, ct := range env.e.r.v.specs.Contracts {
